@@ -68,7 +68,7 @@ if ! stamp_ok kddp "$H$REPO" || [ ! -x "$DDP/bin/kddp" ]; then
   (cd "$REPO/cmd/kddp" && \
    CGO_CPPFLAGS="$(llvm-config-14 --cppflags)" CGO_CXXFLAGS=-std=c++14 \
    CGO_LDFLAGS="$(llvm-config-14 --ldflags --libs --system-libs all)" \
-   go build -tags "byollvm verif" -o "$DDP/bin/kddp" .)
+   go build -tags "byollvm verif" -o "$DDP/bin/kddp.new" . && mv -f "$DDP/bin/kddp.new" "$DDP/bin/kddp")
   stamp_set kddp "$H$REPO"
   rm -f "$OUT/.stamp.listdefs"
 fi
@@ -84,7 +84,7 @@ build_libs() { # $1 = dest dir, $2 = CC, $3.. = flags
     $cc -c "$@" -std=c11 -D_POSIX_C_SOURCE=200809L -Wno-format -I"$REPO/lib/runtime/include" -o "$o" "$f" &
     pids+=($!)
   done
-  $cc -c "$@" -std=c11 -D_POSIX_C_SOURCE=200809L -Wno-format -I"$REPO/lib/runtime/include" -o "$dest/lib/main.o" "$REPO/lib/runtime/source/main.c" &
+  $cc -c "$@" -std=c11 -D_POSIX_C_SOURCE=200809L -Wno-format -I"$REPO/lib/runtime/include" -o "$obj/main.o" "$REPO/lib/runtime/source/main.c" &
   pids+=($!)
   for f in "$REPO"/lib/stdlib/source/DDP/*.c; do
     case "$(basename "$f")" in regex.c|compression.c) continue;; esac
@@ -93,12 +93,16 @@ build_libs() { # $1 = dest dir, $2 = CC, $3.. = flags
     pids+=($!)
   done
   local p; for p in "${pids[@]}"; do wait "$p"; done
-  rm -f "$dest/lib/libddpruntime.a" "$dest/lib/libddpstdlib.a"
-  ar rcs "$dest/lib/libddpruntime.a" "$obj"/rt/*.o
-  ar rcs "$dest/lib/libddpstdlib.a" "$obj"/std/*.o
+  # archives are replaced atomically: checks may be compiling programs while a rebuild happens
+  rm -f "$obj/libddpruntime.a" "$obj/libddpstdlib.a"
+  ar rcs "$obj/libddpruntime.a" "$obj"/rt/*.o
+  ar rcs "$obj/libddpstdlib.a" "$obj"/std/*.o
+  mv -f "$obj/libddpruntime.a" "$dest/lib/libddpruntime.a"
+  mv -f "$obj/libddpstdlib.a" "$dest/lib/libddpstdlib.a"
+  mv -f "$obj/main.o" "$dest/lib/main.o"
   # empty stubs so that the linker's hard-coded -lpcre2-8 -larchive resolve
-  rm -f "$dest/lib/libpcre2-8.a" "$dest/lib/libarchive.a"
-  ar rcs "$dest/lib/libpcre2-8.a"; ar rcs "$dest/lib/libarchive.a"
+  [ -f "$dest/lib/libpcre2-8.a" ] || ar rcs "$dest/lib/libpcre2-8.a"
+  [ -f "$dest/lib/libarchive.a" ] || ar rcs "$dest/lib/libarchive.a"
 }
 H=$(hash_of "$REPO/lib/runtime" "$REPO/lib/stdlib/source" "$REPO/lib/stdlib/include")
 if ! stamp_ok libs "$H$REPO" || [ ! -f "$DDP/lib/libddpruntime.a" ]; then
@@ -132,7 +136,10 @@ fi
 # list defs
 if ! stamp_ok listdefs "$(cat "$OUT/.stamp.kddp")" || [ ! -f "$DDP/lib/ddp_list_types_defs.o" ]; then
   log "dumping list defs"
-  (cd "$DDP/lib" && DDPPATH="$DDP" "$DDP/bin/kddp" dump-list-defs -o ddp_list_types_defs --llvm-ir --object >/dev/null)
+  rm -rf "$OUT/obj/listdefs"; mkdir -p "$OUT/obj/listdefs"
+  (cd "$OUT/obj/listdefs" && DDPPATH="$DDP" "$DDP/bin/kddp" dump-list-defs -o ddp_list_types_defs --llvm-ir --object >/dev/null)
+  mv -f "$OUT/obj/listdefs/ddp_list_types_defs.ll" "$DDP/lib/ddp_list_types_defs.ll"
+  mv -f "$OUT/obj/listdefs/ddp_list_types_defs.o" "$DDP/lib/ddp_list_types_defs.o"
   stamp_set listdefs "$(cat "$OUT/.stamp.kddp")"
 fi
 if [ "$ASAN" = 1 ]; then
@@ -147,7 +154,7 @@ if [ ! -f "$OUT/locale/de_DE.UTF-8/LC_NUMERIC" ]; then
 fi
 
 # ---------------------------------------------------------------- native helpers
-H=$(hash_of "$VERIF/native" "$REPO/lib/runtime/include")
+H=$(hash_of "$VERIF/native" "$REPO/lib/runtime/include")$(cat "$OUT/.stamp.libs" 2>/dev/null)$ASAN
 if ! stamp_ok native "$H$REPO"; then
   log "building native helpers"
   for f in "$VERIF"/native/*.c; do
